@@ -540,6 +540,8 @@ pub enum POp {
     Dequeue,
     DequeueWith(bool),
     Peek,
+    /// crate-private `reset()` (what socket close() calls), through the `_verif` hook
+    Reset,
 }
 
 #[derive(Clone, Debug)]
@@ -600,7 +602,7 @@ fn parse_pb(s: &str) -> Option<PbImage> {
 }
 
 fn pb_ops(cfg: &PbCfg) -> Vec<POp> {
-    let mut v = vec![POp::Dequeue, POp::DequeueWith(true), POp::DequeueWith(false), POp::Peek];
+    let mut v = vec![POp::Dequeue, POp::DequeueWith(true), POp::DequeueWith(false), POp::Peek, POp::Reset];
     for s in 0..=cfg.bytes + 1 {
         v.push(POp::Enqueue(s));
         for u in 0..4u8 {
@@ -618,6 +620,7 @@ impl PbH {
             POp::Dequeue => "dequeue",
             POp::DequeueWith(_) => "dequeue_with",
             POp::Peek => "peek",
+            POp::Reset => "reset",
         };
         out.push(Viol::new(format!("C14/pb/{}/{}", clause, kind), detail));
     }
@@ -817,6 +820,12 @@ impl Harness for PbH {
                         }
                     }
                 }
+            }
+            POp::Reset => {
+                // afterwards the buffer is empty; "an empty packet buffer accepts any packet up
+                // to its payload capacity" is then judged by the enqueue verdicts that follow
+                self.pb.verif_reset();
+                self.q.clear();
             }
             POp::Peek => {
                 let exp = self.q.front().cloned();
